@@ -23,6 +23,7 @@ META = {
 }
 
 B_SECONDS = 30
+B_RETRY_SECONDS = 120
 
 
 def make_scn(rng, real):
@@ -51,7 +52,7 @@ def make_scn(rng, real):
     return scn
 
 
-def run_one(rep, scn):
+def run_one(rep, scn, bound=None):
     import random
     import signal
     import threading
@@ -65,7 +66,7 @@ def run_one(rep, scn):
 
     def before(out):
         signal.signal(signal.SIGALRM, alarm)
-        signal.alarm(B_SECONDS)
+        signal.alarm(bound or B_SECONDS)
         ek = scn.get('ext_kills')
         state['ledger'] = out.ledger_obj
         if ek and 'delays' in ek:
@@ -152,9 +153,19 @@ def run_shard(rep):
         if rep.expired():
             rep.count('skipped_for_time')
             continue
+        if sum(1 for v in rep.violations if v['key'].startswith('no-return')) >= 2:
+            rep.count('stopped_after_repeated_hangs')
+            break       # every further hang would cost B + retry; the verdict is already decided
         rng = scenario_rng(rep.seed, 'C11' + kind, j)
         scn = make_scn(rng, kind == 'real')
         out, state, dur = run_one(rep, scn)
+        ab = getattr(out, 'aborted', None)
+        if ab and ab.startswith('watchdog') and not state.get('alive_at_end'):
+            # before calling it a violation, rule out a merely slow (overloaded) host: same scenario, 4x the bound
+            rep.count('watchdog_retries')
+            out, state, dur = run_one(rep, scn, bound=B_RETRY_SECONDS)
+            if not getattr(out, 'aborted', None):
+                rep.inconclusive(f'returned only within the extended bound ({dur:.0f}s): slow host, not judged', {'scenario': scn})
         nt = judge(rep, scn, out, state, dur)
         rep.case(scn_key(scn) + [str(scn.get('ext_kills')), scn.get('displays'), scn.get('cof')], nt)
         rep.count(f'runs_{scn["backend"]}')
